@@ -308,6 +308,10 @@ def r20_6(ctx):
     cfgp = th.method("config")
     src = norm(cfgp.node)
     ctx.check("'[styles]\\n'" in src and "f'{name} = {style}'" in src, cfgp.fq, "config template", cfgp.where, "config writes a [styles] section of `name = style` lines", "Theme.config no longer emits `[styles]` + `name = str(style)` lines")
+    gens = [x for x in walk_local(cfgp.node) if isinstance(x, (ast.GeneratorExp, ast.ListComp))]
+    okg = len(gens) == 1 and len(gens[0].generators) == 1 and not gens[0].generators[0].ifs and norm(gens[0].generators[0].iter) in ("sorted(self.styles.items())", "self.styles.items()")
+    ctx.check(okg, cfgp.fq, short(gens[0]) if gens else "?", cfgp.where, "config lists every entry of self.styles (no filter)",
+              "Theme.config does not emit every (name, style) of self.styles (filtered or different source): entries such as null styles are missing from the text, so reading it back gives a theme with different styles")
     ff = th.method("from_file")
     src = norm(ff.node)
     ctx.check("Style.parse(value)" in src and "config.items('styles')" in src, ff.fq, "from_file", ff.where, "from_file parses every value of [styles] with Style.parse", "Theme.from_file no longer parses the [styles] values with Style.parse")
